@@ -11,7 +11,7 @@ from ..core.refmodels import ref_dominance, ref_ranks
 PROPERTY = "C02"
 LEVEL = "exploration"
 RULE = ("every sequence of length n over the alphabet (all input orders): quick V3^2 x {F,T} n<=4, V3 x {F,T} n<=6, "
-        "{0,1}^3 x {T} n<=5; thorough adds V5^2 x {T} n<=5 and V3^2 x {F,T} n=5. populations of 6-7 (thorough 8-9) over a 2x2 grid and over a 4-symbol one-objective alphabet; also every permutation of the creation (id) order for n=3 (all) and n=4 over a 6-symbol alphabet. Oracle: rank by the recursive "
+        "{0,1}^3 x {T} n<=5; thorough adds V5^2 x {T} n<=5 and V3^2 x {F,T} n=5. populations of <=5 over costs that differ by 1e-9 or one ulp; populations of 6-7 (thorough 8-9) over a 2x2 grid and over a 4-symbol one-objective alphabet; also every permutation of the creation (id) order for n=3 (all) and n=4 over a 6-symbol alphabet. Oracle: rank by the recursive "
         "definition. distinct_nontrivial = number of distinct labelled dominance relations (verdict matrices) realised "
         "that contain at least one dominance pair; evaluations = sequences sorted.")
 ASSUMPTIONS = ["the sorter sees costs only through the comparator verdicts (C01 checks the comparator)",
@@ -33,6 +33,10 @@ def alphabet(name):
         return [(0.0, 0.0, True), (0.0, 1.0, True), (1.0, 0.0, True), (1.0, 1.0, True)]
     if name == "L3F":     # one objective, three values, both markers: long chains and many duplicates
         return [(0.0, False), (1.0, False), (1.0, True), (2.0, True)]
+    if name == "NEAR":    # costs that differ by 1e-9 / by one ulp: still strictly ordered
+        import math
+        a = 1.0
+        return [(a, a, True), (a + 1e-9, a, True), (a, a + 1e-9, True), (math.nextafter(a, 2.0), math.nextafter(a, 2.0), True), (a + 2e-9, a + 2e-9, False)]
     if name == "S6":
         return [(0.0, 0.0, True), (0.0, 1.0, True), (1.0, 0.0, True), (1.0, 1.0, True), (2.0, 0.0, True), (0.0, 2.0, True)]
     if name == "V5x2":
@@ -163,6 +167,9 @@ def run(tier, seed):
     for n in (1, 2, 3, 4):
         add("B3", n, 0)
     add("B3", 5, 1)
+    for n in (2, 3, 4):
+        add("NEAR", n, 0)
+    add("NEAR", 5, 1)
     add("Q4", 6, 1)
     add("Q4", 7, 2)
     add("L3F", 7, 2)
